@@ -325,6 +325,16 @@ def _searchsorted(a, k):
     return bisect.bisect_right(list(seq), v) if side == 'right' else bisect.bisect_left(list(seq), v)
 
 
+def _bisect_stub(a, k, side):
+    import bisect
+    from .. import confinterp as cf
+    seq = a[0] if a else k.get('a')
+    v = a[1] if len(a) > 1 else k.get('x')
+    if not isinstance(seq, (list, tuple)) or not all(isinstance(x, (int, float)) for x in seq) or not isinstance(v, (int, float)) or len(a) > 2 or set(k) - {'a', 'x'}:
+        raise cf.Unknown('bisect over values that are not literal numbers')
+    return bisect.bisect_right(list(seq), v) if side == 'right' else bisect.bisect_left(list(seq), v)
+
+
 def d4(ctx, prog):
     """automatic class set: _initialize is partially evaluated (sa.confinterp) with no class set declared, for every admitted
     first-batch maximum 0..255 (minimum 0): the class set built must be arange(n) with n > maximum, i.e. contain every value the
@@ -343,7 +353,9 @@ def d4(ctx, prog):
         it.ext_stubs = {'numpy.nanmax': lambda a, k: mx, 'numpy.max': lambda a, k: mx, 'numpy.amax': lambda a, k: mx,
                         'numpy.nanmin': lambda a, k: mn, 'numpy.min': lambda a, k: mn, 'numpy.amin': lambda a, k: mn,
                         'numpy.arange': lambda a, k: ('arange',) + tuple(a),
-                        'numpy.searchsorted': _searchsorted}
+                        'numpy.searchsorted': _searchsorted,
+                        'bisect.bisect_right': lambda a, k: _bisect_stub(a, k, 'right'), 'bisect.bisect': lambda a, k: _bisect_stub(a, k, 'right'),
+                        'bisect.bisect_left': lambda a, k: _bisect_stub(a, k, 'left')}
         o = cf.Obj(ci, partitions=None)
         traces = cf.Sym('traces', attrs={'shape': (cf.Sym('n'), cf.Sym('s'))})
         data = cf.Sym('data', attrs={'shape': (cf.Sym('n'), cf.Sym('w'))})
